@@ -655,7 +655,22 @@ class Module:
         for b in fn.blocks:
             if b.ins:
                 t = b.ins[-1]
-                for lab in t.targets:
+                labs = t.targets
+                if t.op == 'br' and t.ops and len(t.targets) == 2:
+                    # an edge that can never be taken is not an edge: constant conditions, and unsigned comparisons with 0
+                    # that hold for no / every value (clang -O0 keeps `if ((size_t) x < 0)` as icmp ult x, 0)
+                    c = t.ops[0]; k = None
+                    if c[0] == 'int': k = bool(c[1])
+                    elif c[0] == 'reg':
+                        d = fn.def_of(c) if hasattr(fn, 'def_of') else None
+                        if d is not None and d.op == 'icmp':
+                            z0 = d.ops[0] == ('int', 0); z1 = d.ops[1] == ('int', 0)
+                            if d.pred == 'ult' and z1: k = False
+                            elif d.pred == 'uge' and z1: k = True
+                            elif d.pred == 'ugt' and z0: k = False
+                            elif d.pred == 'ule' and z0: k = True
+                    if k is not None: labs = [t.targets[0] if k else t.targets[1]]
+                for lab in labs:
                     sb = fn.bmap.get(lab)
                     if sb is not None and sb not in b.succ:
                         b.succ.append(sb); sb.pred.append(b)
